@@ -105,11 +105,18 @@ def run_race_worker(cases):
     out = []
     env = dict(GOENV, GOTRACEBACK="none", GORACE="halt_on_error=1 exitcode=66")
     for c in cases:
-        try:
-            p = subprocess.run([WORKER_RACE, "exec"], input=json.dumps(c) + "\n", env=env, stdout=subprocess.PIPE, stderr=subprocess.PIPE,
-                               text=True, timeout=120)
-        except subprocess.TimeoutExpired:
-            out.append({"fatal": "timeout under the race detector"})
+        p = None
+        # a case takes a second or two; a timeout is believed only when it repeats with a longer limit (a loaded machine
+        # is not a hang of the library)
+        for limit in (120, 300, 600):
+            try:
+                p = subprocess.run([WORKER_RACE, "exec"], input=json.dumps(c) + "\n", env=env, stdout=subprocess.PIPE, stderr=subprocess.PIPE,
+                                   text=True, timeout=limit)
+                break
+            except subprocess.TimeoutExpired:
+                p = None
+        if p is None:
+            out.append({"fatal": "timeout under the race detector (three attempts: 120 s, 300 s, 600 s)"})
             continue
         if "WARNING: DATA RACE" in (p.stderr or ""):
             rep = [l.strip() for l in p.stderr.split("\n") if l.strip()]
@@ -175,6 +182,24 @@ def run_worker(cases, timeout_per_case=20):
             why = "timeout" if err == "timeout" else ("exit %s: %s" % (rc, (err or "").strip().split("\n")[0][:160]))
             results[pos] = {"fatal": why}
             pos += 1
+    # a reported hang is believed only when it repeats alone, in a fresh process, with a limit of 20 s per call (the first
+    # three of a run are re-examined: when they are confirmed, so are the others)
+    confirmed = 0
+    for i, r in enumerate(results):
+        if isinstance(r, dict) and isinstance(r.get("fatal"), str) and r["fatal"].startswith("timeout"):
+            if confirmed >= 3:
+                break
+            try:
+                p = subprocess.run(["bash", "-c", "ulimit -v 6000000; exec %s exec" % WORKER], input=json.dumps(cases[i]) + "\n",
+                                   env=dict(env, VWORKER_CASE_TIMEOUT="20"), stdout=subprocess.PIPE, stderr=subprocess.PIPE, text=True, timeout=90)
+                lines = [l for l in p.stdout.split("\n") if l.strip()]
+                if lines:
+                    results[i] = json.loads(lines[0]).get("res")
+                    if isinstance(results[i], dict) and "fatal" in results[i]:
+                        results[i]["fatal"] = str(results[i]["fatal"]) + " (repeated alone with a 20 s limit)"
+                        confirmed += 1
+            except Exception:
+                pass
     return results
 
 
